@@ -127,6 +127,9 @@ type Sim struct {
 	OnStep    func(s *Sim) // invariant hook, called at quiescence before each choice
 	Outcome   string       // done | deadlock | budget | fakebudget
 	FiredEvts []string
+	// UnlockYields: releasing a lock is a scheduling point too (what a caller does between an unlock and its
+	// next synchronisation - publishing a snapshot, say - can then be overtaken by another task)
+	UnlockYields bool
 }
 
 var cur atomic.Pointer[Sim]
@@ -619,6 +622,9 @@ func (m *RWMutex) Unlock() {
 		return
 	}
 	m.real.Unlock()
+	if s.UnlockYields {
+		s.yield(t, "unlocked", nil)
+	}
 }
 
 // RLock acquires a read lock; a scheduling decision inside a simulation. A
@@ -672,6 +678,9 @@ func (m *RWMutex) RUnlock() {
 		return
 	}
 	m.real.RUnlock()
+	if s.UnlockYields {
+		s.yield(t, "runlocked", nil)
+	}
 }
 
 // RLocker mirrors sync.RWMutex.RLocker.
@@ -726,6 +735,25 @@ type Mutex struct{ rw RWMutex }
 func (m *Mutex) Lock()         { m.rw.Lock() }
 func (m *Mutex) Unlock()       { m.rw.Unlock() }
 func (m *Mutex) TryLock() bool { return m.rw.TryLock() }
+
+// Once replaces sync.Once: the real one parks losers on an internal sync.Mutex, which is not a durable block
+// inside a synctest bubble (the scheduler would wait for it forever) and offers no scheduling point.
+type Once struct {
+	m    Mutex
+	done atomic.Bool
+}
+
+func (o *Once) Do(f func()) {
+	if o.done.Load() {
+		return
+	}
+	o.m.Lock()
+	defer o.m.Unlock()
+	if !o.done.Load() {
+		defer o.done.Store(true)
+		f()
+	}
+}
 
 // Locker is what Access accepts: either sim mutex type.
 type locker interface{ heldBy(*Task, bool) bool }
